@@ -206,6 +206,7 @@ def _mol2_text_structure(V):
     except PyExc:
         V.ensure("reader/accepts-the-written-text", z3.BoolVal(False))
         return
+    V.ensure("reader/accepts-the-written-text", z3.BoolVal(True))
     sa, ra = m.fields["_atoms"].items, r.fields["_atoms"].items
     V.ensure("roundtrip/name-elements-labels", I.and_(I.eq(r.fields["_name"], m.fields["_name"]), len(sa) == len(ra),
                                                       *[I.eq(x.fields["element"], y.fields["element"]) for x, y in zip(sa, ra)],
@@ -247,6 +248,7 @@ def _mol2_text_ensemble(V):
     except PyExc:
         V.ensure("reader/accepts-the-written-text", z3.BoolVal(False))
         return
+    V.ensure("reader/accepts-the-written-text", z3.BoolVal(True))
     cr, cs = r.fields["_coords"], e.fields["_coords"]
     V.ensure("roundtrip/conformer-and-atom-count", z3.BoolVal(isinstance(cr, NdArr) and tuple(cr.tail) == (2, 2, 3)))
     if tuple(cr.tail) == (2, 2, 3):
